@@ -91,3 +91,41 @@ Example rotation_example :
   accept valid (map (lift cls leg) (ents (smgr (run_from [OAddKey (Some 9) 42; OSetPrimary 9; ODisable 5])))) x = None /\
   accept valid (map (lift cls leg) (ents (smgr (run_from [OAddKey (Some 9) 42; OSetPrimary 9; ODelete 5])))) x = None.
 Proof. repeat split; vm_compute; reflexivity. Qed.
+
+(* the theorem's hypotheses are met by a concrete history in which the key is DELETED (and one
+   in which it is DISABLED) after the first handle, and its second clause then gives the rejection *)
+Example rotation_theorem_applies_after_delete_and_disable :
+  let valid := fun e (x : bytes) => N.eqb (fkey e) (last x 0) in
+  let cls := fun _ : entry => PTink in
+  let leg := fun _ : entry => false in
+  let x := [1; 0; 0; 0; 5; 41] in
+  let s := fst (run (init_state None [5; 9]) [OAddKey (Some 5) 41; OSetPrimary 5]) in
+  let e1 := mkEntry 5 Enabled true (Some 5) 41 in
+  forall ops, In ops [[OAddKey (Some 9) 42; OSetPrimary 9; ODelete 5];
+                      [OAddKey (Some 9) 42; OSetPrimary 9; ODisable 5]] ->
+  accept valid (map (lift cls leg) (ents (smgr (fst (run s ops))))) x = None.
+Proof.
+  intros valid cls leg x s e1 ops Hops.
+  assert (HS : SInv s).
+  { apply run_inv. apply init_inv. intros h H; discriminate. }
+  assert (Hcl : forall a b, kp a = kp b -> cls a = cls b /\ leg a = leg b) by (intros; split; reflexivity).
+  assert (Hv : forall a b y, same_key a b -> valid a y = valid b y).
+  { intros a b y (_ & _ & _ & _ & K). unfold valid. rewrite K. reflexivity. }
+  assert (H1 : In e1 (ents (smgr s))) by (vm_compute; left; reflexivity).
+  assert (Hno : Forall (fun o => forall k, o <> OFromHandle k) ops).
+  { destruct Hops as [<-|[<-|[]]]; repeat constructor; intros k; discriminate. }
+  pose proof (rotation_between_handles cls leg Hcl valid Hv ops s e1 x HS Hno H1
+                eq_refl eq_refl eq_refl) as R. cbv zeta in R.
+  assert (W : wf_handle (ents (smgr (fst (run s ops))))).
+  { split.
+    - pose proof (run_inv ops s HS) as [[HE _] _]. exact HE.
+    - destruct Hops as [<-|[<-|[]]]; vm_compute; reflexivity. }
+  assert (B : ents_bounded (ents (smgr (fst (run s ops))))).
+  { intros e He. destruct Hops as [<-|[<-|[]]]; vm_compute in He;
+      repeat (destruct He as [<-|He]; [vm_compute; reflexivity|]); destruct He. }
+  destruct (R W B) as [_ R2]. apply R2.
+  - intros e2 He Hid. destruct Hops as [<-|[<-|[]]]; vm_compute in He;
+      repeat (destruct He as [<-|He]; [try discriminate Hid; simpl; discriminate|]); destruct He.
+  - intros e He Hid Hen. destruct Hops as [<-|[<-|[]]]; vm_compute in He;
+      repeat (destruct He as [<-|He]; [try (exfalso; apply Hid; reflexivity); try discriminate Hen; vm_compute; reflexivity|]); destruct He.
+Qed.
